@@ -207,3 +207,10 @@ Proof.
   unfold plan_reads_covered, plan_outputs. destruct (analyse_covers (as_steps (indexed_plan o)) (indexed_plan o)) as [H1 H2].
   rewrite H1, H2. reflexivity.
 Qed.
+
+(* and for programs with aggregate / set / increment / jump / mark / null-producing moves *)
+Theorem x_analysis_covers (p : list xstmt) : x_reads_covered p (x_outputs p) = true.
+Proof.
+  unfold x_reads_covered, x_outputs. destruct (analyse_covers (as_steps (x_indexed p)) (x_indexed p)) as [H1 H2].
+  rewrite H1, H2. reflexivity.
+Qed.
